@@ -1,11 +1,15 @@
 import EupsModel.Lemmas.SetupFrame
+import EupsModel.Lemmas.SetupPresent
 /-! C01 — setup yields a consistent environment with no residue of superseded versions.
 Model: `EupsModel/Model/Setup.lean`; lemmas: `EupsModel/Lemmas/Setup*.lean`.
 
-`EnvOK`: (a) `DirOK` — every record names a declared version and `<P>_DIR` is its directory; (c) `NoResidue Empty` — every
-own element / envSet value / directory variable belongs to the recorded version of its product; `WellOwned` — the
-environment is one eups produced under the request's setup type (every own element comes from a line of its product's
-table).  Clause (b) (contributions present) is checked on the implementation by oracle (ii) only. -/
+`EnvOK`: (a) `DirOK` — every record names a declared version and `<P>_DIR` is its directory; (b) `Present` — every own path
+contribution (`envPrepend`/`envAppend` of `${PRODUCT_DIR}…`) of the table of every recorded version is in its variable;
+(c) `NoResidue Empty` — every own element / envSet value / directory variable belongs to the recorded version of its
+product; `WellOwned` — the environment is one eups produced under the request's setup type (every own element comes
+from a line of its product's table).  Own `envSet` values are covered by (c) but not by (b): two lines of one table, or
+two products, may set the same variable, and the last one wins (oracle (ii) checks them under the generator's
+one-variable-per-product discipline). -/
 namespace EupsModel.C01
 open EupsModel EupsModel.Setup
 
@@ -39,17 +43,36 @@ theorem C01_no_residue_partial (db : Db) (rank : Name → Nat) (hdag : NameDag d
   (setup_recOK (r.cfg db) rank hdag fuel).spec true 0 false r.vro r.name r.version none (St.init e) s'
     (by intro n d x h; simp [St.init, aget] at h) hown hres h
 
-/-- `EnvOK` (clauses (a) and (c)) is preserved -/
+/-! ## clause (b): the own path contributions of every set-up product are present -/
+
+/-- every set-up product has each own `envPrepend`/`envAppend` contribution of its table in place -/
+def ContribsPresent (cfg : Cfg) (e : Setup.Env) : Prop := Present cfg (fun _ => False) e
+
+theorem C01_contributions_present_partial (db : Db) (rank : Name → Nat) (hdag : NameDag db rank) (fuel : Nat)
+    (fwd : Bool) (r : Request) (e : Setup.Env) (s' : St) (hown : WellOwned (r.cfg db) e) (hres : NoResidue Empty e)
+    (hpres : ContribsPresent (r.cfg db) e)
+    (h : (if fwd then runSetup db fuel r e else runUnsetup db fuel r e) = .ok s') :
+    ContribsPresent (r.cfg db) s'.env := by
+  have key := setup_presSpec (r.cfg db) rank hdag fuel (fun _ => False)
+  have ha : AlreadyOK (r.cfg db).db (St.init e).already := by intro n d x h; simp [St.init, aget] at h
+  cases fwd with
+  | true => exact key true 0 false r.vro r.name r.version none (St.init e) s' (fun _ h => h.elim) ha hown hres hpres h
+  | false => exact key false 0 false r.vro r.name none none (St.init e) s' (fun _ h => h.elim) ha hown hres hpres h
+
+/-- `EnvOK` = clauses (a), (b), (c) (+ the environment is one eups produced) -/
 structure EnvOK (cfg : Cfg) (e : Setup.Env) : Prop where
   dir : DirOK cfg.db e
+  present : ContribsPresent cfg e
   noResidue : NoResidue Empty e
   wellOwned : WellOwned cfg e
 
+/-- clauses 1–3 of C01: a successful setup request preserves `EnvOK` — under `NameDag` -/
 theorem C01_envOK_preserved_partial (db : Db) (rank : Name → Nat) (hdag : NameDag db rank) (fuel : Nat) (r : Request)
     (e : Setup.Env) (s' : St) (hok : EnvOK (r.cfg db) e) (h : runSetup db fuel r e = .ok s') :
     EnvOK (r.cfg db) s'.env := by
   obtain ⟨h1, h2⟩ := C01_no_residue_partial db rank hdag fuel r e s' hok.wellOwned hok.noResidue h
-  exact ⟨C01_dir_preserved db fuel true r e s' hok.dir h, h1, h2⟩
+  exact ⟨C01_dir_preserved db fuel true r e s' hok.dir h,
+         C01_contributions_present_partial db rank hdag fuel true r e s' hok.wellOwned hok.noResidue hok.present h, h1, h2⟩
 
 /-! ## clause 4: an explicitly named version is the one set up -/
 
@@ -138,6 +161,7 @@ example : NameDag dbDiamond rankDiamond := nameDag_of_check _ _ (by decide +kern
 
 example (cfg : Cfg) : EnvOK cfg Setup.Env.empty :=
   ⟨by intro n v h; simp [Setup.Env.empty, Setup.Env.rec?, aget] at h,
+   by intro n v _ h; simp [Setup.Env.empty, Setup.Env.rec?, aget] at h,
    ⟨by intro v p r h; simp [Setup.Env.empty, Setup.Env.pathOf, aget] at h,
     by intro v p r h; simp [Setup.Env.empty, aget] at h, by intro n p r h; simp [Setup.Env.empty, aget] at h⟩,
    ⟨by intro v p r h; simp [Setup.Env.empty, Setup.Env.pathOf, aget] at h,
